@@ -132,6 +132,7 @@ pub fn run_session(plan: &Plan, root: &Path, end: End, base_model: Option<Model>
 		Err(msg) => {
 			let _ = ip::end_session();
 			Outcome {
+				failed_commits: vec![],
 				violation: Some(Violation::new("panic", format!("panic outside the run loop: {}", msg))),
 				stats: Stats::default(),
 				ops: vec![],
